@@ -13,3 +13,12 @@ var cwdMu syncMutex
 
 func chdirLock()   { cwdMu.Lock() }
 func chdirUnlock() { cwdMu.Unlock() }
+
+func sortedFileKeys(m map[string]string) []string {
+	out := make([]string, 0, len(m))
+	for k := range m {
+		out = append(out, k)
+	}
+	sortStrings(out)
+	return out
+}
